@@ -59,7 +59,7 @@ class ChunkGen:
         r = self.r
         k = r.below(20)
         if k == 0:
-            n = r.choice([1000, 5000, 70000])
+            n = r.choice([1000, 1000, 5000, 5000, 5000, 70000]) if r.chance(1, 3) else 300
             self.h("str:long%d" % n)
         elif k < 4:
             n = r.below(3)
@@ -384,7 +384,7 @@ class ChunkGen:
         nf = 1 + r.below(max(2, int(4 * self.size)))
         for i in range(nf):
             if r.chance(1, 12):
-                self.many_constants_function(r.choice([40, 300, 700]))
+                self.many_constants_function(r.choice([40, 40, 300, 300, 700]))
             else:
                 self.closed_function()
             if tl and r.chance(1, 3):
@@ -661,7 +661,7 @@ def lua_result_key(line):
 
 def mutations(rng, d, offs, nrand):
     """(kind, bytes) malformed variants of the valid dump d"""
-    out = []
+    out = [("valid", d)]
     n = len(d)
     cut_points = set([0, 1, 2, 3, 4, n - 1, n - 2] + [o for o, _ in offs] + [o + 8 for o, k in offs if k != "type" and k != "counts"] + [o + 3 for o, _ in offs])
     for c in sorted(cut_points):
@@ -742,7 +742,7 @@ def run(tier, seed):
             if fn.endswith(".lua"):
                 chunks.append(open(vlib.os.path.join(corpus, fn)).read())
     ncorpus = len(chunks)
-    nchunks = 260 if quick else 4000
+    nchunks = 120 if quick else 4000
     for i in range(nchunks):
         g = ChunkGen(rng.fork(), size=(0.5 if i % 3 == 0 else 1.0 if i % 3 == 1 else 2.0), hist=hist)
         chunks.append(g.chunk())
@@ -855,7 +855,7 @@ def run(tier, seed):
         ck.sample({"chunk": chunks[i][:1500], "closure": j, "dump": p["d1"][:300], "reloaded_code": p["tree"][:300]})
 
     # ------------------------------------------------ stage B: behaviour of f vs load(string.dump(f))
-    nb = min(len(good_chunks), 200 if quick else 3000)
+    nb = min(len(good_chunks), 100 if quick else 3000)
     blines = []
     for n, i in enumerate(good_chunks[:nb]):
         lim = " cpu=20000000 mem=400000000" if n % 3 == 0 else ""
@@ -894,7 +894,7 @@ def run(tier, seed):
     picks = []
     if dumps:
         small = [d for d in dumps if len(d[0]) <= 700]
-        npick = 25 if quick else 400
+        npick = 12 if quick else 400
         for _ in range(npick):
             picks.append(rng.choice(small if small and rng.chance(4, 5) else dumps[: max(1, len(dumps) * 9 // 10)]))
     muts = []
@@ -1006,7 +1006,7 @@ def run(tier, seed):
             if mal_fail <= 3:
                 ck.violation("UnmarshalConst of a malformed stream: %s" % uo[1], {"kind": "Go!=S", "engine": "marshal", "stream": m.hex(), "budget": ulines[n].split(" ")[2], "impl": uout[n][:900], "model": mout[n][:300]})
         elif uo[1:] != mo[1:]:
-            im_diffs.append(("UnmarshalConst result differs from the model on a malformed stream (%s)" % kind, None, None, ulines[n][:400] + " -> go: " + uout[n][:200] + " model: " + mout[n][:200]))
+            im_diffs.append(("UnmarshalConst result differs from the model on a malformed stream (%s)" % kind, None, None, ulines[n][:6000] + " -> go: " + uout[n][:200] + " model: " + mout[n][:200]))
         if ulines[n].split(" ")[2] != "0":
             pass   # load() runs with an unlimited budget: only the budget-0 verdict of the model speaks about it
         elif lmod[n].split(" ")[1] == "gopanic":
